@@ -31,9 +31,9 @@ struct WorkC {
   template <class A>
   void io(A &a) { a("g", g); a("pool", pool); a("threads", threads); a("repeats", repeats); }
 };
-enum { T_EVAL, T_COPY_DESTROY, T_ASSIGN, T_ADD, T_SUB, T_MUL, T_APPLY, T_APPLY_SPLINEOP, T_LINFORM, T_BILFORM, T_GENERATE, T_PRED, T_LINCOMB, T_SUPPORT, T_INTEGRATE, T_GRID_COPY, T_EQUAL_GRID_MIX, T_LOCAL_GRID_MIX, T_HIGH_ORDER_OPS, T_COUNT };
+enum { T_EVAL, T_COPY_DESTROY, T_ASSIGN, T_ADD, T_SUB, T_MUL, T_APPLY, T_APPLY_SPLINEOP, T_LINFORM, T_BILFORM, T_GENERATE, T_PRED, T_LINCOMB, T_SUPPORT, T_INTEGRATE, T_GRID_COPY, T_EQUAL_GRID_MIX, T_LOCAL_GRID_MIX, T_HIGH_ORDER_OPS, T_EVAL_SWEEP, T_COUNT };
 static const char *tname(int c) {
-  static const char *n[] = {"evaluate", "copy+destroy", "copy-assign", "a+b", "a-b", "a*b", "apply-operator", "apply-spline-operator", "linear-form", "bilinear-form", "generateBSplines", "predicates", "linearCombination", "support-algebra", "integrate", "grid-copy", "mix-with-equal-grid-object", "mix-with-thread-local-grid", "high-order-operators"};
+  static const char *n[] = {"evaluate", "copy+destroy", "copy-assign", "a+b", "a-b", "a*b", "apply-operator", "apply-spline-operator", "linear-form", "bilinear-form", "generateBSplines", "predicates", "linearCombination", "support-algebra", "integrate", "grid-copy", "mix-with-equal-grid-object", "mix-with-thread-local-grid", "high-order-operators", "evaluation-sweep-of-one-shared-spline"};
   return c >= 0 && c < T_COUNT ? n[c] : "?";
 }
 
@@ -119,6 +119,25 @@ static void run_ops(const Pool &P, const ThreadC &t, std::vector<D> &out) {
           fold(out, P.s2[i] * l); fold(out, P.s1[i] + l); out.push_back(P.sp(P.s3[i], l)); out.push_back((D)P.s0[i].checkOverlap(l));
           out.push_back(bi::LinearForm{bo::SplineOperator{P.s1[i]}}(l));
         }
+        break;
+      }
+      case T_EVAL_SWEEP: {
+        // every thread evaluates THE SAME shared const spline (the whole-grid one) at many points, sweeping the grid from
+        // a thread-specific start: the values are compared bitwise with the sequential run, so state that evaluation
+        // keeps inside the object shows up as a wrong value even when the race detector has nothing to report
+        const size_t np = P.grid.size();
+        auto sweep = [&](const auto &sp) {
+          D acc = 0;
+          for (size_t k = 0; k < 1500; k++) {
+            size_t iv = (i + k / 12) % (np - 1);
+            D x = P.grid[iv] + (P.grid[iv + 1] - P.grid[iv]) * (D)((k * 7 + j) % 16) / 16.0;
+            D v = sp(x);
+            acc += v;
+            if (k % 100 == 0) out.push_back(v);
+          }
+          out.push_back(acc);
+        };
+        if (j & 1) sweep(P.s3[0]); else sweep(P.s1[0]);
         break;
       }
       case T_HIGH_ORDER_OPS: {
